@@ -228,8 +228,10 @@ pub fn scenarios(prop: &str, tier: &str) -> Vec<Arc<dyn Scenario>> {
                 ));
                 // relocation-happy configuration: every stale blob file is rewritten at once
                 let mut cr = TreeCfg::small(keys_ab()).with_blob(16);
-                cr.blob = Some(crate::driver::BlobCfg { threshold: 16, file_target: 1, staleness: 0.0, age_cutoff: 1.0 });
+                cr.blob = Some(crate::driver::BlobCfg { threshold: 16, file_target: 64 << 20, staleness: 0.0, age_cutoff: 1.0 });
                 let mut ar = Alphabet::default();
+                // two large values in one blob file: the file can be stale without being dead
+                ar.extra = vec![Op::Seq { ops: vec![Op::Put { k: 0, big: true }, Op::Put { k: 1, big: true }, Op::Flush { w: Wm::Tight }] }];
                 ar.put_f_big = true;
                 ar.put_f = true;
                 ar.del_f = true;
@@ -337,8 +339,10 @@ pub fn scenarios(prop: &str, tier: &str) -> Vec<Arc<dyn Scenario>> {
                 let bd = if quick { bs(4, 1, 0, 2, 0) } else { bs(5, 2, 0, 2, 0) };
                 v.push(std("C04-blob-flushy", TreeCfg::small(keys_ab()).with_blob(16), af.clone(), bd, vec![vec![]], OracleKind::C04));
                 let mut cr = TreeCfg::small(keys_ab()).with_blob(16);
-                cr.blob = Some(crate::driver::BlobCfg { threshold: 16, file_target: 1, staleness: 0.0, age_cutoff: 1.0 });
-                v.push(std("C04-blob-relocating", cr, af, bd, vec![vec![]], OracleKind::C04));
+                cr.blob = Some(crate::driver::BlobCfg { threshold: 16, file_target: 64 << 20, staleness: 0.0, age_cutoff: 1.0 });
+                let mut ar = af.clone();
+                ar.extra = vec![Op::Seq { ops: vec![Op::Put { k: 0, big: true }, Op::Put { k: 1, big: true }, Op::Flush { w: Wm::Tight }] }];
+                v.push(std("C04-blob-relocating", cr, ar, bd, vec![vec![]], OracleKind::C04));
             }
             if quick {
                 v.push(std(
@@ -551,6 +555,22 @@ pub fn scenarios(prop: &str, tier: &str) -> Vec<Arc<dyn Scenario>> {
             let mut push = |name: String, cfg: TreeCfg, alpha: &Alphabet, bd: Budget, seeds: Vec<Vec<Op>>| {
                 v.push(Arc::new(Blob { name, cfg, alphabet: alpha.clone(), budget: bd, seeds, kind }) as Arc<dyn Scenario>);
             };
+            {
+                // relocation-happy: two large values share a blob file, every stale file is rewritten
+                let mut ar = Alphabet::default();
+                ar.extra = vec![Op::Seq { ops: vec![Op::Put { k: 0, big: true }, Op::Put { k: 1, big: true }, Op::Flush { w: Wm::Tight }] }];
+                ar.put_f_big = true;
+                ar.put_f = true;
+                ar.del_f = true;
+                ar.major = vec![u64::MAX];
+                ar.leveled = vec![0];
+                ar.wms = vec![Wm::Tight];
+                ar.snap = prop == "C08";
+                ar.no_unsnap = true;
+                ar.reopen = true;
+                let bd = if quick { bs(3, 2, 1, 1, 0) } else { bs(4, 3, 1, 1, 0) };
+                push(format!("{prop}-relocating"), mk(16, 64 << 20, 0.0, 1.0), &ar, bd, vec![vec![]]);
+            }
             if quick {
                 push(format!("{prop}-t16-aggressive"), mk(16, 1, 0.0, 1.0), &a, bs(2, 2, 1, 1, 1), seeds_upto(1));
                 push(format!("{prop}-t16-default"), mk(16, 64 << 20, 0.25, 0.25), &a, bs(2, 2, 1, 1, 1), vec![vec![]]);
